@@ -188,6 +188,16 @@ type GbCase struct {
 	// Flood (after the packets of the program stream): a sequence-number gap, many packets cached behind the gap,
 	// then the missing packet, then further packets.  Exercises the reorder list up to and beyond its capacity (1024).
 	Flood *GbFlood `json:"flood,omitempty"`
+	// Udp: the packets go as datagrams to the UDP socket of a pub session started with CtrlStartRtpPub (lal's UDP read loop)
+	Udp bool `json:"udp,omitempty"`
+	// SecondConn > 0 (TCP): before packet SecondConn-1 (mod count) a second TCP connection is made to the same port
+	// (lal closes the first one and starts a second reader on the same unpacker); the remaining packets go over it.
+	// FirstAlso: the first connection gets one more packet afterwards
+	SecondConn int  `json:"second_conn,omitempty"`
+	FirstAlso  bool `json:"first_also,omitempty"`
+	// Ticks: ServerManager.VerifTick counts run when half of the packets are out (the session is half-open); the pub
+	// session's own timeout is 60 ticks: 1, 61, 121 without traffic in between make lal dispose it mid-stream
+	Ticks []uint32 `json:"ticks,omitempty"`
 }
 
 // GbFlood: packet F (valid), then Cached valid packets F+2 ... F+1+Cached (held back: F+1 is missing), then F+1
@@ -370,9 +380,10 @@ func genPsElem(t *rapid.T, ts *uint64) PsElem {
 	return e
 }
 
-func genGbCase(tcp bool) func(t *rapid.T) GbCase {
+func genGbCase(mode string) func(t *rapid.T) GbCase {
+	tcp := mode == "tcp"
 	return func(t *rapid.T) GbCase {
-		c := GbCase{Tcp: tcp, LenLieAt: -1, HdrAt: -1}
+		c := GbCase{Tcp: tcp, Udp: mode == "udp", LenLieAt: -1, HdrAt: -1}
 		c.Mut.Trunc = -1
 		ts := uint64(rapid.SampledFrom([]uint64{0, 90000, 1<<33 - 1}).Draw(t, "ts0"))
 		// a valid beginning most of the time, so that the parser is in the middle of a stream
@@ -411,6 +422,13 @@ func genGbCase(tcp bool) func(t *rapid.T) GbCase {
 				f.Then = append(f.Then, rapid.SampledFrom([]int{0, 1, 2, 3, 1100, 1101, 1102, 5000, 5002, 5003, 32768, 40000, 65535}).Draw(t, "floodSeq"))
 			}
 			c.Flood = f
+		}
+		if mode != "l1" && rapid.IntRange(0, 3).Draw(t, "gbTicks") == 0 {
+			c.Ticks = rapid.SampledFrom([][]uint32{{1}, {1, 61}, {1, 61, 121}, {120, 240}, {5}}).Draw(t, "gbTickPattern")
+		}
+		if tcp && rapid.IntRange(0, 3).Draw(t, "secondConn") == 0 {
+			c.SecondConn = rapid.IntRange(1, 9).Draw(t, "secondConnAt")
+			c.FirstAlso = rapid.Bool().Draw(t, "firstAlso")
 		}
 		if tcp {
 			if rapid.IntRange(0, 3).Draw(t, "lenLie") == 0 {
@@ -470,38 +488,18 @@ func runGbL1(c GbCase) *pbt.Violation {
 			return s.PanicViolation()
 		}
 	}
-	return probe(s)
+	return probe(s, nil)
 }
 
-// runGbTcp sends the packets to the TCP port of a pub session started with CtrlStartRtpPub.  lal reads and parses in a
-// goroutine of its own: a panic there kills the process (Isolate; the driver attributes the death).
-func runGbTcp(c GbCase) *pbt.Violation {
-	s := inproc.New(inproc.Config{RtmpGopNum: 1, FlvGopNum: 1, TsGopNum: 1})
-	defer s.Close()
-	resp := startRtpPub(s, true, freePort())
-	if v := s.PanicViolation(); v != nil {
-		return v
-	}
-	conn, err := net.DialTimeout("tcp", fmt.Sprintf("127.0.0.1:%d", resp.Data.Port), 10*time.Second)
-	if err != nil {
-		lalclient.Harness("c13: dial gb28181 tcp port %d: %v", resp.Data.Port, err)
-	}
-	defer conn.Close()
-	var wire []byte
-	for i, raw := range c.packets() {
-		n := len(raw)
-		if i == c.LenLieAt {
-			n = c.LenLie
-		}
-		var l [2]byte
-		binary.BigEndian.PutUint16(l[:], uint16(n))
-		wire = append(wire, l[:]...)
-		wire = append(wire, raw...)
-	}
-	wire = c.Mut.apply(wire)
+func gbFrame(raw []byte, n int) []byte {
+	var l [2]byte
+	binary.BigEndian.PutUint16(l[:], uint16(n))
+	return append(l[:], raw...)
+}
+
+func writeSliced(conn net.Conn, b []byte, slices []int) {
 	_ = conn.SetWriteDeadline(time.Now().Add(20 * time.Second))
-	b := wire
-	for _, n := range c.Slices {
+	for _, n := range slices {
 		if len(b) == 0 {
 			break
 		}
@@ -509,25 +507,126 @@ func runGbTcp(c GbCase) *pbt.Violation {
 			n = len(b)
 		}
 		if _, err := conn.Write(b[:n]); err != nil {
-			b = nil
-			break
+			return
 		}
 		b = b[n:]
 	}
 	if len(b) > 0 {
 		_, _ = conn.Write(b)
 	}
+}
+
+// runGbSession sends the packets to the TCP port / UDP socket of a pub session started with CtrlStartRtpPub.  lal reads
+// and parses in goroutines of its own: a panic there kills the process (Isolate; the driver attributes the death).
+func runGbSession(c GbCase) *pbt.Violation {
+	s := inproc.New(inproc.Config{RtmpGopNum: 1, FlvGopNum: 1, TsGopNum: 1})
+	defer s.Close()
+	fd, v := startFeed(s)
+	if v != nil {
+		return v
+	}
+	port := 0
+	if c.Tcp {
+		port = freePort()
+	}
+	resp := startRtpPub(s, c.Tcp, port)
+	if v := s.PanicViolation(); v != nil {
+		return v
+	}
+	pk := c.packets()
+	tickAt := len(pk) / 2
+	if c.Udp {
+		addr := fmt.Sprintf("127.0.0.1:%d", resp.Data.Port)
+		sent := uint64(0)
+		for i, raw := range pk {
+			if i == tickAt {
+				if v := runTicks(s, fd, c.Ticks); v != nil {
+					return v
+				}
+			}
+			uc, err := net.Dial("udp", addr)
+			if err != nil {
+				lalclient.Harness("c13: dial gb28181 udp %s: %v", addr, err)
+			}
+			n, _ := uc.Write(raw)
+			_ = uc.Close()
+			sent += uint64(n)
+			// paced by the session's byte counter (it counts a datagram before parsing it); a lost datagram or a
+			// session that lal has disposed meanwhile costs 200 ms, nothing else
+			deadline := time.Now().Add(200 * time.Millisecond)
+			for n > 0 && time.Now().Before(deadline) {
+				st := s.SM.StatGroup(gbStream)
+				if st == nil || st.StatPub.ReadBytesSum >= sent {
+					break
+				}
+				time.Sleep(100 * time.Microsecond)
+			}
+			if n == 0 {
+				time.Sleep(300 * time.Microsecond)
+			}
+		}
+		time.Sleep(2 * time.Millisecond) // the handler of the last datagram
+		return probe(s, fd)
+	}
+	dial := func() net.Conn {
+		conn, err := net.DialTimeout("tcp", fmt.Sprintf("127.0.0.1:%d", resp.Data.Port), 10*time.Second)
+		if err != nil {
+			lalclient.Harness("c13: dial gb28181 tcp port %d: %v", resp.Data.Port, err)
+		}
+		return conn
+	}
+	conn := dial()
+	defer conn.Close()
+	first := conn
+	second := -1
+	if c.SecondConn > 0 && len(pk) > 0 {
+		second = (c.SecondConn - 1) % len(pk)
+	}
+	var wire []byte
+	total := 0
+	flush := func() {
+		if len(wire) > 0 {
+			w := wire
+			if second < 0 {
+				w = c.Mut.apply(w) // byte-level mutation of the framed stream (single-connection cases)
+			}
+			writeSliced(conn, w, c.Slices)
+			total += len(w)
+			wire = nil
+		}
+	}
+	for i, raw := range pk {
+		if i == tickAt && len(c.Ticks) > 0 {
+			flush()
+			waitGbDrained(s, total)
+			if v := runTicks(s, fd, c.Ticks); v != nil {
+				return v
+			}
+		}
+		if i == second {
+			flush()
+			waitGbDrained(s, total)
+			conn = dial() // lal closes the first connection and reads this one with a second goroutine
+			defer conn.Close()
+			if c.FirstAlso {
+				writeSliced(first, gbFrame(raw, len(raw)), nil)
+			}
+		}
+		n := len(raw)
+		if i == c.LenLieAt {
+			n = c.LenLie
+		}
+		wire = append(wire, gbFrame(raw, n)...)
+	}
+	flush()
 	// lal's reader ends at EOF.  It counts the bytes of a packet before it parses it and parses in the reading
 	// goroutine; a healthy publisher/subscriber pair is then relayed on the same server: had the parser crashed, the
 	// process would be gone.
 	if tc, ok := conn.(*net.TCPConn); ok {
 		_ = tc.CloseWrite()
 	}
-	// wait until lal has consumed the whole stream: its side reads until EOF and then leaves the loop; the number of
-	// bytes it has counted stops growing.  There is no positive signal for "parsed the last packet"; give the reader
-	// a moment proportional to nothing but scheduling, then probe.
-	waitGbDrained(s, len(wire))
-	return probe(s)
+	waitGbDrained(s, total)
+	return probe(s, fd)
 }
 
 // waitGbDrained waits (bounded, never a verdict) until the pub session has counted as many bytes as complete
@@ -605,6 +704,25 @@ func classifyGb(c GbCase) (bool, []string) {
 		}
 		hostile = true
 	}
+	if c.Udp {
+		labels = append(labels, "transport:udp-socket")
+	}
+	if c.SecondConn > 0 {
+		labels = append(labels, "tcp:second-connection")
+		if c.FirstAlso {
+			labels = append(labels, "tcp:first-connection-writes-after-second")
+		}
+		hostile = true
+	}
+	if len(c.Ticks) > 0 {
+		labels = append(labels, "ticks:mid-stream")
+		for _, tk := range c.Ticks {
+			if tk > 60 {
+				labels = append(labels, "ticks:session-timeout-check")
+				break
+			}
+		}
+	}
 	if c.Tcp {
 		if c.LenLieAt >= 0 {
 			labels = append(labels, "tcp:length-prefix-lies")
@@ -619,15 +737,25 @@ func classifyGb(c GbCase) (bool, []string) {
 }
 
 func TestGb28181Unpacker(t *testing.T) {
+	resetNotes()
 	pbt.Run(t, pbt.Spec[GbCase]{
-		ID: "C13", Name: "gb28181-ps-rtp", Gen: genGbCase(false), Run: runGbL1, Classify: classifyGb, Isolate: true,
+		ID: "C13", Name: "gb28181-ps-rtp", Gen: genGbCase("l1"), Run: runGbL1, Classify: classifyGb, Isolate: true,
 		Quick: 1000, Thorough: 6000,
 	})
 }
 
 func TestGb28181Tcp(t *testing.T) {
+	resetNotes()
 	pbt.Run(t, pbt.Spec[GbCase]{
-		ID: "C13", Name: "gb28181-tcp-session", Gen: genGbCase(true), Run: runGbTcp, Classify: classifyGb, Isolate: true,
+		ID: "C13", Name: "gb28181-tcp-session", Gen: genGbCase("tcp"), Run: runGbSession, Classify: classifyGb, Isolate: true,
 		Quick: 120, Thorough: 600,
+	})
+}
+
+func TestGb28181Udp(t *testing.T) {
+	resetNotes()
+	pbt.Run(t, pbt.Spec[GbCase]{
+		ID: "C13", Name: "gb28181-udp-session", Gen: genGbCase("udp"), Run: runGbSession, Classify: classifyGb, Isolate: true,
+		Quick: 100, Thorough: 500,
 	})
 }
